@@ -1920,7 +1920,12 @@ func (p *Parser) parseExpressionSuffix(left IExpr, prec, precLeft OpPrec) IExpr 
 				return nil
 			}
 			p.next()
-			left = &BinaryExpr{tt, left, p.parseExpression(OpAssign)}
+			// the right-hand side is an expression, also when the left-hand side turns out to be a binding pattern of an arrow function
+			prevAssumeArrowFunc := p.assumeArrowFunc
+			p.assumeArrowFunc = false
+			right := p.parseExpression(OpAssign)
+			p.assumeArrowFunc = prevAssumeArrowFunc
+			left = &BinaryExpr{tt, left, right}
 			precLeft = OpAssign
 		case LtToken, LtEqToken, GtToken, GtEqToken, InToken, InstanceofToken:
 			if OpCompare < prec || !p.in && tt == InToken {
